@@ -27,9 +27,10 @@ VARIABLES dur, pend, gens, hist, done, ack, fl, now, conf, l,
           cflags,     \* aspects of CrashSafe that fail in some crash image of the current state
           real,       \* last real-recovery observation (or NoReal)
           snap,       \* snapshot taken at the last acknowledged flush (or NoSnap)
-          dropping, dropFailed
+          dropping, dropFailed,
+          live0       \* blocks of the winners of the initial image (traces that start from a crashed device)
 
-tvars == <<dur, pend, gens, hist, done, ack, fl, now, conf, l, cflags, real, snap, dropping, dropFailed>>
+tvars == <<dur, pend, gens, hist, done, ack, fl, now, conf, l, cflags, real, snap, dropping, dropFailed, live0>>
 
 Rec == ndJsonDeserialize(IOEnv.TRACE)
 Ev == Rec[l]
@@ -53,7 +54,7 @@ TInit == /\ l = 1 /\ dur = EmptyImage /\ pend = <<>> /\ gens = <<>>
          /\ hist = <<>> /\ done = <<>> /\ ack = <<>> /\ fl = <<>> /\ now = 0
          /\ conf = [fmt |-> 3, ttl |-> FALSE, nk |-> 0, cc |-> TRUE]
          /\ real = NoReal /\ snap = NoSnap /\ dropping = FALSE /\ dropFailed = FALSE
-         /\ cflags = {}
+         /\ cflags = {} /\ live0 = {}
 
 Same(vs) == UNCHANGED vs
 
@@ -65,6 +66,23 @@ TStart == /\ Ev.e = "init"
           /\ ack' = [k \in 1 .. Ev.nk |-> 1]
           /\ dur' = EmptyImage /\ pend' = <<>> /\ gens' = <<>> /\ fl' = <<>>
           /\ real' = NoReal /\ snap' = NoSnap /\ dropping' = FALSE /\ dropFailed' = FALSE
+          /\ live0' = {}
+
+\* C04: the trace starts from a crashed device image; the contents the first complete recovery
+\* reports (abstract reader) are the only state every later recovery may expose
+ImgOf(j) == [blk |-> [b \in Blocks |-> Cont(j.blk[b - DS + 1])],
+             j |-> [s \in 0 .. 1 |-> JV(j.j[s + 1])],
+             m |-> [c \in 0 .. 1 |-> MV(j.m[c + 1])]]
+TImage == /\ Ev.e = "image"
+          /\ dur' = ImgOf(Ev.img) /\ pend' = <<>>
+          /\ LET r == Recover(dur', gens, Keys, now, conf.ttl, FALSE) IN
+             /\ hist' = [k \in Keys |-> <<IF r.ok THEN r.win[k] ELSE 0>>]
+             /\ live0' = IF r.ok THEN UNION {r.winAt[k].at .. (r.winAt[k].at + gens[r.win[k]].n - 1)
+                                               : k \in {kk \in Keys : r.win[kk] # 0}}
+                          ELSE {}
+          /\ done' = [k \in Keys |-> 1] /\ ack' = [k \in Keys |-> 1]
+          /\ real' = NoReal /\ snap' = NoSnap
+          /\ Same(<<gens, fl, now, conf, dropping, dropFailed>>)
 
 TGen == /\ Ev.e = "gen"
         /\ gens' = Append(gens, [k |-> Ev.k, ts |-> Ev.ts, exp |-> Ev.exp, n |-> Ev.n])
@@ -178,11 +196,12 @@ FlagsOf(d, p, gs, hs, ak, t, cf) ==
               \cup (IF r.ghosts # {} THEN {"ghost"} ELSE {})
          : S \in SubsetsOf(p)}
 
-Changes == IF conf'.cc THEN Ev.e \in {"init", "call", "tick", "w", "fsync", "flush_end", "drop_end", "settled"}
+Changes == IF conf'.cc THEN Ev.e \in {"init", "image", "call", "tick", "w", "fsync", "flush_end", "drop_end", "settled"}
            ELSE Ev.e \in {"flush_end", "drop_end", "settled"}
 TNext == /\ l <= Len(Rec) /\ l' = l + 1
          /\ (TStart \/ TGen \/ TCall \/ TRet \/ TTick \/ TWrite \/ TFsync \/ TFlushBegin \/ TFlushEnd
-             \/ TDrop \/ TRec \/ TSettled)
+             \/ TDrop \/ TRec \/ TSettled \/ TImage)
+         /\ (IF Ev.e \in {"init", "image"} THEN TRUE ELSE live0' = live0)
          /\ cflags' = IF Changes THEN FlagsOf(dur', pend', gens', hist', ack', now', conf') ELSE cflags
 TSpec == TInit /\ [][TNext]_tvars
 
@@ -247,6 +266,10 @@ Partition ==
 LastEv == Rec[l - 1]
 ReadsServe == (l > 1 /\ LastEv.e = "reads") => LastEv.bad = 0
 HealWorks == (l > 1 /\ LastEv.e = "heal") => LastEv.ok
+
+\* C04: recovery's repairs only ever touch blocks that belong to no live record
+RepairsSafe == \A i \in 1 .. Len(pend) :
+                 pend[i].kind = "d" => (pend[i].at .. (pend[i].at + Len(pend[i].c) - 1)) \cap live0 = {}
 
 NoUnknownRegion == \A i \in 1 .. Len(pend) : pend[i].kind # "x"
 
